@@ -154,7 +154,7 @@ func canonicalOK(t *vlib.T, tm M, ctx string) bool {
 const locTol = 1e-7
 
 func genDtrexc(g *vlib.G) {
-	lim := vlib.Pick(g, 6, 8)
+	lim := p3(g, 6, 7, 9)
 	for n := 0; n <= lim; n++ {
 		for _, blocks := range compositions(n) {
 			for fill := 0; fill < 3; fill++ {
@@ -316,7 +316,7 @@ func runDtrexc(t *vlib.T, n int, blocks []int, fill, ldx int) {
 }
 
 func genDlaexc(g *vlib.G) {
-	lim := vlib.Pick(g, 6, 8)
+	lim := p3(g, 6, 8, 10)
 	for n := 1; n <= lim; n++ {
 		for _, blocks := range compositions(n) {
 			for fill := 0; fill < 3; fill++ {
@@ -513,8 +513,8 @@ func sparseScaled(n, seed int) M {
 }
 
 func genDgebal(g *vlib.G) {
-	lim := vlib.Pick(g, 6, 10)
-	seeds := vlib.Pick(g, 12, 40)
+	lim := p3(g, 6, 8, 10)
+	seeds := p3(g, 12, 24, 40)
 	for n := 0; n <= lim; n++ {
 		for seed := 0; seed < seeds; seed++ {
 			for _, job := range []lapack.BalanceJob{lapack.BalanceNone, lapack.Permute, lapack.Scale, lapack.PermuteScale} {
@@ -674,7 +674,7 @@ func runDgebal(t *vlib.T, n, seed int, job lapack.BalanceJob, ldx int) {
 // Dtrevc3
 
 func genDtrevc3(g *vlib.G) {
-	lim := vlib.Pick(g, 5, 7)
+	lim := p3(g, 5, 6, 7)
 	profs := []prof{profiles[0], profiles[1], profiles[2]}
 	for n := 0; n <= lim; n++ {
 		for _, blocks := range compositions(n) {
@@ -697,7 +697,7 @@ func genDtrevc3(g *vlib.G) {
 	// back-transformation (nb = 8 or 9 columns, obtained with lwork = 17n, 19n+1)
 	// fill its buffer exactly before / in the middle of a complex pair: r real
 	// eigenvalues at one end, pairs elsewhere, both orientations.
-	for n := 9; n <= vlib.Pick(g, 11, 14); n++ {
+	for n := 9; n <= p3(g, 11, 13, 16); n++ {
 		for r := 0; r <= n; r++ {
 			for _, realsLast := range []bool{true, false} {
 				var blocks []int
